@@ -51,6 +51,10 @@ def junk_forms(i, tag, rng, huge=False):
     n = rng.choice([511, 512, 513, 1023, 1024, 1025, 4095, 4096, 4097, 8192, 9000])
     forms.append("%d Z %s" % (u, "y" * (n - len("%d Z " % u))))
     forms.append("%d Z %s" % (i, ("ab " * (n // 3))))
+    # an over-long junk line whose tail, taken by itself, would be a command for the live client (a reader that gives up on
+    # a long line in the middle must not treat the rest as a line of its own)
+    forms.append("%d Z %s %d D" % (u, "y" * rng.choice([8200, 9000, 12300, 16500]), i))
+    forms.append("%d Z %s %d H Others" % (u, "y " * rng.choice([4100, 4600, 8200]), i))
     if huge:
         forms = forms[-2:] + ["%d Z %s" % (u, "y" * 70000), "%d Q %s" % (i, "ab " * 30000), "\t" * 66000]
     return forms
